@@ -27,20 +27,33 @@ class Unsupported(Exception):
 # constant pool
 # ------------------------------------------------------------------------------------------
 class ConstPool:
-    """Canonical exact value for every float constant met on either side.
+    """Canonical exact value for every float constant met on either side (DESIGN 2.2).
 
-    * integers stay themselves;
-    * a value within REL of a registered one becomes that one;
-    * otherwise snapped to the simplest rational within 2^-40 relative (denominator <= 1e6) if
-      there is one, else its exact binary value; then registered.
+    * integers stay themselves; a constant within 1e-10 relative of a registered one becomes that one;
+    * "simple" rationals (denominator <= 10^5, within ~16 ulp: a statistically significant
+      approximation, error << 1/q^2) are snapped to that rational;
+    * every other ("opaque": irrational table entries, folded products of those) constant joins
+      the ratio class of an already registered opaque constant m if c/m is a simple rational
+      r (denominator <= 1000, within 1e-11 relative; r = 1 is plain clustering) and gets the exact
+      value r * value(m); otherwise it founds a new class with its exact binary value.
+      This keeps CasADi's constant folding ((n*T)*tau -> fl(n*tau)*T) comparable with a reference
+      that multiplies exact factors.  A constant related to two different classes is ambiguous:
+      the instance is skipped (counted), never passed.
     """
     REL = 1e-10
+    SIMPLE_DEN = 10 ** 5
+    SIMPLE_TOL = Fraction(4, 10 ** 15)      # ~16 ulp: chance hit for a random real ~ q^2*tol = 4e-5
+    RATIO_DEN = 1000
+    RATIO_TOL = 1e-11
 
     def __init__(self):
-        self.keys = []   # floats
-        self.vals = []   # Fractions
+        self.keys = []   # floats of opaque members
+        self.vals = []   # exact Fractions assigned
+        self.cls = []    # class id
         self.snapped = 0
         self.max_rel = 0.0
+        self.n_classes = 0
+        self.cache = {}
 
     def canon(self, c):
         if isinstance(c, int):
@@ -53,22 +66,59 @@ class ConstPool:
             if math.isnan(f) or math.isinf(f):
                 raise Unsupported('non-finite constant %r' % f)
             exact = Fraction(f)
-        if f == int(f) and abs(f) < 2 ** 53:
+        if exact.denominator == 1:
+            return exact
+        if f == int(f) and abs(f) < 2 ** 53 and not isinstance(c, Fraction):
             return Fraction(int(f))
+        key = (f, exact if isinstance(c, Fraction) else None)
+        if key in self.cache:
+            return self.cache[key]
+        # (1) cluster with any registered constant (simple or opaque)
         for k, v in zip(self.keys, self.vals):
             if abs(f - k) <= self.REL * max(abs(f), abs(k)):
                 if v != exact:
                     self.snapped += 1
                     self.max_rel = max(self.max_rel, abs(f - k) / max(abs(f), abs(k)))
+                self.cache[key] = v
                 return v
-        v = exact
-        if not isinstance(c, Fraction):
-            s = exact.limit_denominator(10 ** 6)
-            if abs(s - exact) <= abs(exact) * Fraction(1, 2 ** 40):
-                v = s
-        self.keys.append(float(v))
-        self.vals.append(v)
-        return v
+        # (2) simple rational: statistically significant approximation (error << 1/q^2)
+        val = None
+        cl = -1
+        if isinstance(c, Fraction):
+            if exact.denominator <= self.SIMPLE_DEN:
+                val = exact
+        else:
+            s = exact.limit_denominator(self.SIMPLE_DEN)
+            if abs(s - exact) <= abs(exact) * self.SIMPLE_TOL:
+                val = s
+                if s != exact:
+                    self.snapped += 1
+        if val is None:
+            # (3) ratio class of an opaque constant
+            found = None
+            for k, v, kc in zip(self.keys, self.vals, self.cls):
+                if kc < 0:
+                    continue
+                q = f / k
+                r = Fraction(q).limit_denominator(self.RATIO_DEN)
+                if r != 0 and abs(float(r) - q) <= self.RATIO_TOL * abs(q):
+                    if found is None:
+                        found = (kc, r * v)
+                    elif found[0] != kc:
+                        raise Unsupported('ambiguous constant folding: %r relates to two constant classes' % f)
+            if found is not None:
+                cl, val = found
+                if val != exact:
+                    self.snapped += 1
+                    self.max_rel = max(self.max_rel, abs(float(val) - f) / abs(f))
+            else:
+                cl, val = self.n_classes, exact
+                self.n_classes += 1
+        self.keys.append(f)
+        self.vals.append(val)
+        self.cls.append(cl)
+        self.cache[key] = val
+        return val
 
 
 # ------------------------------------------------------------------------------------------
@@ -163,7 +213,7 @@ class Z3Domain:
         b = self.z3.simplify(b)
         if self._isnum(a) and self._isnum(b):
             return self.const(math.hypot(self._tofloat(a), self._tofloat(b)))
-        return self.U2(a, b)
+        return self.U2(a + b, a * b)   # hypot is symmetric and CasADi may swap its operands: U2 models any symmetric binary function
 
     def div(self, a, b):
         return a / b
@@ -188,6 +238,174 @@ class Z3Domain:
 
     def sqrt(self, a):
         raise Unsupported('sqrt')
+
+
+class RZ:
+    """reference-side value: exact constant ('k') or z3 term ('t').  Constant sub-expressions are folded
+    exactly (CasADi folds them in floating point on the implementation side); a constant is passed
+    through the pool when it is embedded into a term, so both foldings meet in one canonical value."""
+    __slots__ = ('k', 't', 'dom')
+
+    def __init__(self, dom, k=None, t=None):
+        self.dom = dom
+        self.k = k
+        self.t = t
+
+    def emb(self):
+        if self.t is not None:
+            return self.t
+        return self.dom._num(self.dom.pool.canon(self.k))
+
+    def _lift(self, o):
+        if isinstance(o, RZ):
+            return o
+        if isinstance(o, (int, Fraction)):
+            return RZ(self.dom, k=Fraction(o))
+        if isinstance(o, float):
+            return RZ(self.dom, k=Fraction(o))
+        return self.dom.wrap(o)
+
+    def _bin(self, o, fk, ft):
+        o = self._lift(o)
+        if self.k is not None and o.k is not None:
+            return RZ(self.dom, k=fk(self.k, o.k))
+        return RZ(self.dom, t=ft(self.emb(), o.emb()))
+
+    def __add__(self, o):
+        o = self._lift(o)
+        if self.k is not None and self.k == 0:
+            return o
+        if o.k is not None and o.k == 0:
+            return self
+        return self._bin(o, lambda a, b: a + b, lambda a, b: a + b)
+
+    def __radd__(self, o):
+        return self._lift(o).__add__(self)
+
+    def __sub__(self, o):
+        o = self._lift(o)
+        if o.k is not None and o.k == 0:
+            return self
+        r = self._bin(o, lambda a, b: a - b, lambda a, b: a - b)
+        if r.t is not None and self.t is not None and o.t is not None and _small(r.t):
+            # CasADi folds e.g. (t0 + 1/2) - t0 -> 1/2: differences of small terms are checked for constness
+            r = self.dom._constify(r)
+        return r
+
+    def __rsub__(self, o):
+        return self._lift(o).__sub__(self)
+
+    def __mul__(self, o):
+        o = self._lift(o)
+        for a, b in ((self, o), (o, self)):
+            if a.k is not None:
+                if a.k == 0:
+                    return RZ(self.dom, k=Fraction(0))
+                if a.k == 1:
+                    return b
+        return self._bin(o, lambda a, b: a * b, lambda a, b: a * b)
+
+    def __rmul__(self, o):
+        return self._lift(o).__mul__(self)
+
+    def __truediv__(self, o):
+        o = self._lift(o)
+        if o.k is not None:
+            if o.k == 0:
+                raise Unsupported('division by constant zero in reference')
+            if o.k == 1:
+                return self
+            if self.k is not None:
+                return RZ(self.dom, k=self.k / o.k)
+        if self.k is not None and self.k == 0:
+            return self
+        return RZ(self.dom, t=self.emb() / o.emb())
+
+    def __rtruediv__(self, o):
+        return self._lift(o).__truediv__(self)
+
+    def __neg__(self):
+        if self.k is not None:
+            return RZ(self.dom, k=-self.k)
+        return RZ(self.dom, t=-self.t)
+
+    def __repr__(self):
+        return 'RZ(%s)' % (self.k if self.k is not None else self.t)
+
+
+def _small(t, budget=40):
+    n = 0
+    stack = [t]
+    while stack:
+        e = stack.pop()
+        n += 1
+        if n > budget:
+            return False
+        stack.extend(e.children())
+    return True
+
+
+class RefZ3Domain:
+    """domain of the reference semantics on the SMT side: RZ values"""
+    name = 'refz3'
+
+    def __init__(self, zdom):
+        self.zdom = zdom
+        self.pool = zdom.pool
+        self.z3 = zdom.z3
+        self.poly = zdom.poly
+
+    def _num(self, v):
+        return self.z3.RealVal(str(v)) if v.denominator != 1 else self.z3.RealVal(v.numerator)
+
+    def wrap(self, term):
+        """z3 term (from the implementation view) -> RZ"""
+        if isinstance(term, RZ):
+            return term
+        z3 = self.z3
+        st = z3.simplify(term) if not z3.is_rational_value(term) else term
+        if z3.is_rational_value(st):
+            return RZ(self, k=Fraction(st.numerator_as_long(), st.denominator_as_long()))
+        return RZ(self, t=term)
+
+    def const(self, c):
+        return RZ(self, k=Fraction(c))
+
+    def _constify(self, a):
+        """a term that simplifies to a numeral is a constant (CasADi folds e.g. (t0+1/2)-t0)"""
+        if a.k is None:
+            st = self.z3.simplify(a.t)
+            if self.z3.is_rational_value(st):
+                return RZ(self, k=Fraction(st.numerator_as_long(), st.denominator_as_long()))
+        return a
+
+    def nl1(self, a):
+        a = RZ._lift(self.const(0), a)
+        if self.poly:
+            return POLY1(a)
+        a = self._constify(a)
+        if a.k is not None:
+            return RZ(self, k=Fraction(math.erf(float(a.k))))
+        return RZ(self, t=self.zdom.U1(a.emb()))
+
+    def nl2(self, a, b):
+        a = RZ._lift(self.const(0), a)
+        b = RZ._lift(self.const(0), b)
+        if self.poly:
+            return POLY2(a, b)
+        a = self._constify(a)
+        b = self._constify(b)
+        if a.k is not None and b.k is not None:
+            return RZ(self, k=Fraction(math.hypot(float(a.k), float(b.k))))
+        ae, be = a.emb(), b.emb()
+        return RZ(self, t=self.zdom.U2(ae + be, ae * be))
+
+    def div(self, a, b):
+        return RZ._lift(self.const(0), a) / b
+
+
+def emb(v):
+    return v.emb() if isinstance(v, RZ) else v
 
 
 def POLY1(a):
